@@ -546,7 +546,7 @@ func main() {
 		})
 	}
 	run := evid.New("C13", "model_checking")
-	run.Rule("whole system: case = (scenario in {play-tcp, play-udp, record-tcp, record-udp, two-readers-tcp, stalled-reader-tcp, play/record over the WebSocket tunnel, play-tcp / play-udp / record-tcp over rtsps with SRTP}, step index k = 0..len(steps), closer in {Server.Close, ServerStream.Close, Client.Close}, order in {after step k-1 completed, concurrently with step k}); all combinations; plus handler-gated in-flight cases {record, play} x {udp, tcp} x closer {TEARDOWN, Server.Close, connection drop + timeout | Client.Close, Server.Close, ServerStream.Close}: the harness holds a packet callback open, starts the closer, lets the library run to quiescence, releases the callback; plus Client.Close against a scripted server that keeps sending unsolicited {responses, requests}: the client's routine is held in its hook, the reader is parked with the next message and a backlog of 64 behind it, Close starts, the hook is released (8 trials each - the runtime's choice between the two ready channels is not controlled); plus requests queued at a session while it ends: the session is held inside a handler, 1-2 further connections send {OPTIONS, GET_PARAMETER, TEARDOWN, PLAY, PAUSE} with its id, terminator in {none, ServerSession.Close, ServerStream.Close, Server.Close}, the handler is released (120 cases); plus Server.Close while a connection is between the listener and the server (network Accept hook, 12 trials x {no, one} established connection); plus ONE ENVIRONMENT FAULT per execution: in every client-driven scenario the n-th operation of one class fails - dial by the client (ECONNREFUSED, n<=3), opening of a client datagram socket (EADDRINUSE, n<=6), read / write on the client's or the server's side of a control connection (ECONNRESET, the connection is reset; n<=10 / 12), datagram send by server or client (ENETUNREACH, n<=8) - every step of the scenario must still return, then the client is closed, 60 s of virtual time pass and the server must have ended every connection and session by itself, then everything is closed with the usual oracle; and Server.Start with its n-th socket refused (n<=4) fails and leaves nothing behind; cores: every interleaving (preemption bound <=2 quick / <=3 thorough) of the lifecycle drivers of rtpsender.Sender, rtpreceiver.Receiver and the async processor under the controlled scheduler. states = distinct (scenario, k, closer, order) situations + distinct core histories; transitions = protocol steps and scheduling points executed; every trace runs on the implementation. non-trivial = k >= 1")
+	run.Rule("whole system: case = (scenario in {play-tcp, play-udp, record-tcp, record-udp, two-readers-tcp, stalled-reader-tcp, play/record over the WebSocket tunnel, play-tcp / play-udp / record-tcp over rtsps with SRTP}, step index k = 0..len(steps), closer in {Server.Close, ServerStream.Close, Client.Close}, order in {after step k-1 completed, concurrently with step k}); all combinations; plus handler-gated in-flight cases {record, play} x {udp, tcp} x closer {TEARDOWN, Server.Close, connection drop + timeout | Client.Close, Server.Close, ServerStream.Close}: the harness holds a packet callback open, starts the closer, lets the library run to quiescence, releases the callback; plus Client.Close against a scripted server that keeps sending unsolicited {responses, requests}: the client's routine is held in its hook, the reader is parked with the next message and a backlog of 64 behind it, Close starts, the hook is released (8 trials each - the runtime's choice between the two ready channels is not controlled); plus requests queued at a session while it ends: the session is held inside a handler, 1-2 further connections send {OPTIONS, GET_PARAMETER, TEARDOWN, PLAY, PAUSE} with its id, terminator in {none, ServerSession.Close, ServerStream.Close, Server.Close}, the handler is released (120 cases); plus Server.Close while a connection is between the listener and the server (network Accept hook, 12 trials x {no, one} established connection); plus Client.Close while the client's first exchange is pending against a peer that accepted and says nothing (plain first request, TLS handshake, HTTP tunnel, WebSocket tunnel); plus ONE ENVIRONMENT FAULT per execution: in every client-driven scenario the n-th operation of one class fails - dial by the client (ECONNREFUSED, n<=3), opening of a client datagram socket (EADDRINUSE, n<=6), read / write on the client's or the server's side of a control connection (ECONNRESET, the connection is reset; n<=10 / 12), datagram send by server or client (ENETUNREACH, n<=8) - every step of the scenario must still return, then the client is closed, 60 s of virtual time pass and the server must have ended every connection and session by itself, then everything is closed with the usual oracle; and Server.Start with its n-th socket refused (n<=4) fails and leaves nothing behind; cores: every interleaving (preemption bound <=2 quick / <=3 thorough) of the lifecycle drivers of rtpsender.Sender, rtpreceiver.Receiver and the async processor under the controlled scheduler. states = distinct (scenario, k, closer, order) situations + distinct core histories; transitions = protocol steps and scheduling points executed; every trace runs on the implementation. non-trivial = k >= 1")
 	run.Assume("wall-clock is only the hang detector; virtual time is advanced by up to 150 s at quiescence while a call is pending")
 	run.Assume("the whole-system part runs free (Go scheduler decides the interleaving of the racing order); exhaustive interleaving exploration is limited to the component cores")
 
